@@ -127,6 +127,10 @@ harnesses! {
     #[kani::unwind(5)] fn c19_array0() [T0 S] : "Q|[T;0] matches empty" { conc_h!([Str<A>; 0], RArr<RStr<A>, 0>, 3, b"ab", 0, 0) }
     #[kani::unwind(5)] fn c19_array3() [T0 S] : "Q|[\"a\";3] = aaa" { conc_h!([Str<A>; 3], RArr<RStr<A>, 3>, 4, b"ab", 0, 3) }
     #[kani::unwind(5)] fn c19_pair() [T0 S] : "Q|(\"a\",\"ab\")" { conc_h!((Str<A>, Str<AB>), RPair<RStr<A>, RStr<AB>>, 4, b"ab", 0, 3) }
+    #[kani::unwind(5)] fn c19_option_abs() [T0 S] : "Q|Option<Seq2<push,pure>> with abstract children: parse == check == reference incl. the stack when the body fails after pushing" {
+        crate::c03::abs3nf::<Option<Seq2<Nk<Abs<0, 1>>, Nk<Abs<1, 0>>>>, ROpt<RSeq2<RSk, 0, RAbs<0, 1>, RAbs<1, 0>>>>(FREE, 1) }
+    #[kani::unwind(5)] fn c19_array_pair_abs() [T0 S] : "Q|([T;2], T) of pushing/popping abstract children: parse == check == reference" {
+        crate::c03::abs3::<([Abs<0, 1>; 2], Abs<1, 2>), RPair<RArr<RAbs<0, 1>, 2>, RAbs<1, 2>>>(FREE, 1) }
     #[kani::unwind(5)] fn c19_option() [T0 S] : "Q|Option<\"ab\">" { conc_h!(Option<Str<AB>>, ROpt<RStr<AB>>, 3, b"ab", 0, 2) }
     #[kani::unwind(5)] fn c19_atomic_repeat() [T0 S] : "Q|AtomicRepeat<Choice2<\" \",\"ab\">> (the skip-repeat node)" {
         conc_h!(AtomicRepeat<Choice2<Str<SP>, Str<AB>>>, RRep<REmpty, 0, RChoice2<RStr<SP>, RStr<AB>>, 0, { usize::MAX }>, 4, b"ab ", 0, 3) }
